@@ -89,6 +89,10 @@ def adaptive_stable(c, y, rng):
     return True
 
 
+CTOR_SHAPES = {"1d_len2": lambda: np.array([5.0, 6.0]), "1d_len3": lambda: np.array([5.0, 6.0, 7.0]), "1d_len4": lambda: np.array([1.0, 2.0, 3.0, 4.0]),
+               "1col": lambda: np.zeros((4, 1)), "0d": lambda: np.array(3.0), "1d_len2_int": lambda: np.array([7, 9])}
+
+
 def nlit(n):
     """the oversampling factor for the model (an integer): a fractional factor below 2 is a factor below 2"""
     return zlit(int(n)) if n == int(n) else ("1" if n < 2 else zlit(int(n)))
@@ -251,6 +255,18 @@ Definition prog_ok (x : option (list Qc)) (y : list Qc) (e : option exn) (steps 
                     script = pre + [{"op": "truncate_by_index", "start": start, "stop": None}]
                     cases.append({"x": gens.sorted_x(rng, m, rng.choice(["uniform", "dyadic", "int"])), "y": gens.values(rng, m), "script": script, "seed": 1,
                                   "len": len(script), "pool": [], "as_list": False, "int_x": False, "x_none": False, "invalid": False})
+        if "truncate_by_value" in pool and "interpolate" in pool and not self.exhaustive_domain:
+            # the working series resampled onto as many points and the same end points as the reference, but other interior abscissae —
+            # then cut by value: each series is cut at its own samples (a "same grid" test that looks at length and end points only
+            # would cut the reference at the working series' positions)
+            for _ in range(4):
+                m = rng.randint(8, 11)
+                xs_ = gens.sorted_x(rng, m, rng.choice(["dyadic", "int", "ratio"]))
+                span = xs_[-1] - xs_[0]
+                l_, r_ = xs_[0] + span * rng.choice([0.25, 0.125, 0.375]), xs_[0] + span * rng.choice([0.75, 0.625, 0.875])
+                script = [{"op": "interpolate", "n": m, "method": "linear"}, {"op": "truncate_by_value", "l": l_, "r": r_, "lr": False, "rr": False}]
+                cases.append({"x": xs_, "y": gens.values(rng, m), "script": script, "seed": 1, "len": 2, "pool": [], "as_list": False, "int_x": False,
+                              "x_none": False, "invalid": False})
         if "truncate_by_value" in pool:
             # a truncation bound of exactly 0 (falsy in Python) strictly inside the range, on either side, also after a shift
             zx_ = [-3.0, -2.0, -1.0, 0.5, 1.0, 2.0, 3.0]
@@ -292,6 +308,11 @@ Definition prog_ok (x : option (list Qc)) (y : list Qc) (e : option exn) (steps 
                           "x_none": False, "invalid": False, "ctor": "3d"})
             cases.append({"x": [0.0, 1.0, 2.0], "y": [1.0, 2.0, 3.0], "seed": 1, "len": 0, "pool": [], "as_list": False, "int_x": False,
                           "x_none": False, "invalid": False, "ctor": "3cols"})
+            # further shapes that are not (N, 2): flat arrays (of 2, 3, 4 elements: two elements are not "one row of two columns"),
+            # a single column, a 0-d array
+            for kind in ("1d_len2", "1d_len3", "1d_len4", "1col", "0d", "1d_len2_int"):
+                cases.append({"x": [0.0, 1.0, 2.0], "y": [1.0, 2.0, 3.0], "seed": 1, "len": 0, "pool": [], "as_list": False, "int_x": False,
+                              "x_none": False, "invalid": False, "ctor": kind})
         return cases
 
     @staticmethod
@@ -335,7 +356,7 @@ Definition prog_ok (x : option (list Qc)) (y : list Qc) (e : option exn) (steps 
             r = rng.choice([1, 2, 2, 3])
             if n * r > MAXLEN or len(w.reference_x) * r > MAXLEN:
                 r = 1
-            return {"op": "repeat", "r": r}
+            return {"op": "repeat", "r": r, "n_np": rng.random() < 0.15}
         if name == "truncate_by_value":
             if n < 6:
                 return None
@@ -407,7 +428,7 @@ Definition prog_ok (x : option (list Qc)) (y : list Qc) (e : option exn) (steps 
                 nn = rng.randint(2, min(MAXLEN, 2 * n + 3))
                 if method == "constant" and not constant_grid_safe(x, nn, exact):
                     method = "linear"      # a grid point within rounding of a sample: `<=` may go either way in floats (DESIGN 3.6)
-                return {"op": name, "n": nn, "method": method}
+                return {"op": name, "n": nn, "method": method, "n_np": rng.random() < 0.15}
             M = rng.randint(2, min(MAXLEN, n + 6))
             inner = sorted({float(x[0] + (x[-1] - x[0]) * rng.randint(1, 63) / 64) for _ in range(M - 2)})
             g = [float(x[0])] + [v for v in inner if x[0] < v < x[-1]] + [float(x[-1])]
@@ -500,7 +521,7 @@ Definition prog_ok (x : option (list Qc)) (y : list Qc) (e : option exn) (steps 
         elif name in ("normalize_x", "normalize_y"):
             getattr(w, name)(o["lo"], o["hi"])
         elif name == "repeat":
-            w.repeat(o["r"])
+            w.repeat(np.int64(o["r"]) if o.get("n_np") else o["r"])
         elif name == "truncate_by_value":
             if om:
                 kw = {k_: True for k_, f_ in (("x_left_as_ratio", o["lr"]), ("x_right_as_ratio", o["rr"])) if f_}
@@ -513,10 +534,11 @@ Definition prog_ok (x : option (list Qc)) (y : list Qc) (e : option exn) (steps 
             else:
                 w.truncate_by_index(o["start"], o["stop"])
         elif name == "recreate":
+            nn = np.int64(o["n"]) if o.get("n_np") and isinstance(o["n"], int) else o["n"]     # (a NumPy integer scalar is an integer)
             if o.get("all_defaults"):
-                w.recreate_from_average(o["n"])          # the documented default strategy with its default parameters
+                w.recreate_from_average(nn)          # the documented default strategy with its default parameters
             else:
-                w.recreate_from_average(o["n"], rfa_class=rfa_units.cls_of(o["strategy"]), **rfa_units.kwargs_of(o))
+                w.recreate_from_average(nn, rfa_class=rfa_units.cls_of(o["strategy"]), **rfa_units.kwargs_of(o))
         elif name == "integral_match":
             kw = {"alpha": o["alpha"]}
             if "strategy" in o:
@@ -534,7 +556,8 @@ Definition prog_ok (x : option (list Qc)) (y : list Qc) (e : option exn) (steps 
         elif name == "interpolate":
             mkw = {} if (om and o["method"] == "linear") else {"method": o["method"]}
             if "n" in o:
-                w.interpolate(n=o["n"], **mkw) if not om else w.interpolate(o["n"], **mkw)
+                nn = np.int64(o["n"]) if o.get("n_np") else o["n"]
+                w.interpolate(n=nn, **mkw) if not om else w.interpolate(nn, **mkw)
             elif "new_x" in o:
                 g = list(o["new_x"]) if o["as_list"] else np.array(o["new_x"], dtype=float)
                 if o.get("also_n") is not None:
@@ -615,6 +638,8 @@ Definition prog_ok (x : option (list Qc)) (y : list Qc) (e : option exn) (steps 
                 w = Weaver.from_2d_array(np.zeros((3, 2, 1)))
             elif c.get("ctor") == "3cols":
                 w = Weaver.from_2d_array(np.zeros((3, 3)))
+            elif c.get("ctor") in CTOR_SHAPES:
+                w = Weaver.from_2d_array(CTOR_SHAPES[c["ctor"]]())
             elif c["x_none"]:
                 w = Weaver(None, list(c["y"]) if c["as_list"] else yin)
             elif c["as_list"]:
@@ -779,9 +804,10 @@ Definition prog_ok (x : option (list Qc)) (y : list Qc) (e : option exn) (steps 
         raise AssertionError(n)
 
     def coq(self, c, o):
-        if c.get("ctor") in ("3d", "3cols"):
+        if c.get("ctor") in ("3d", "3cols") or c.get("ctor") in CTOR_SHAPES:
+            a_ = np.zeros((3, 2, 1)) if c["ctor"] == "3d" else np.zeros((3, 3)) if c["ctor"] == "3cols" else CTOR_SHAPES[c["ctor"]]()
             return "match from_2d %d %d [] [] with Raise e => %s | Ok _ => false end" % (
-                3 if c["ctor"] == "3d" else 2, 2 if c["ctor"] == "3d" else 3,
+                a_.ndim, a_.shape[1] if a_.ndim >= 2 else 0,
                 "exn_eqb e %s" % o["ctor"] if o["ctor"] else "false")
         X = "None" if c["x_none"] else "(Some %s)" % qlist(c["x"])
         if o["ctor"]:
@@ -1051,3 +1077,72 @@ Definition prog_ok (x : option (list Qc)) (y : list Qc) (e : option exn) (steps 
                 k = st["op"]["op"] + (":invalid" if "invalid" in st["op"] else "") + (":exc" if "exc" in st else "")
                 h[k] = h.get(k, 0) + 1
         return h
+
+
+# ------------------------------------------------------------------------------------------
+class BigIntAbscissaeUnit(Unit):
+    """C09 on integer abscissae beyond 2^53 held in an int64 array (epoch nanoseconds): neighbouring samples are different integers but the
+    same double.  Construction, integer shifts, index truncation and restore_original only copy or add integers: the abscissae stay the
+    integers they were (strictly increasing, original = the data handed in).  Oracle only: the observations are exact Python integers."""
+    name = "weaver_bigint"
+
+    def gen(self, rng, tier):
+        cases = []
+        for _ in range(6 if tier == "quick" else 40):
+            m = rng.randint(5, 9)
+            xs = [2 ** 53 + 1 + 2 * rng.randint(0, 1000)]
+            for _k in range(m - 1):
+                xs.append(xs[-1] + rng.choice([1, 1, 2, 3]))
+            cases.append({"x": xs, "y": gens.values(rng, m), "shift": rng.choice([5, -3, 1]), "start": rng.randint(1, 2)})
+        return cases
+
+    def run(self, c):
+        from traffic_weaver import Weaver
+        x = np.array(c["x"], dtype=np.int64)
+        y = np.array(c["y"], dtype=float)
+        out = {}
+
+        def ints(a):
+            a = np.asarray(a)
+            return [int(v) for v in a.tolist()] if a.dtype.kind in "iu" else [float(v) for v in a.tolist()]
+        try:
+            w = Weaver(x, y)
+            out["ctor"] = ints(w.get()[0])
+            out["orig"] = ints(w.get_original()[0])
+            w.shift_x(c["shift"])
+            out["shifted"] = ints(w.get()[0])
+            w.truncate_by_index(c["start"])
+            out["cut"] = ints(w.get()[0])
+            w.restore_original()
+            out["restored"] = ints(w.get()[0])
+            out["caller_changed"] = bool(x.tolist() != c["x"])
+        except Exception as e:
+            out["exc"] = exn_name(e)
+            out["exc_msg"] = str(e)[:160]
+        return out
+
+    def coq(self, c, o):
+        return None
+
+    def oracle(self, c, o):
+        F = []
+
+        def fail(aspect, what):
+            F.append(Failure(aspect=aspect, what="%s (int64 abscissae %s)" % (what, c["x"]), signature={"aspect": aspect}))
+        if "exc" in o:
+            fail("valid-op-raises", "a valid operation raised %s" % o.get("exc_msg"))
+            return F
+        x = c["x"]
+        exp = {"ctor": x, "orig": x, "shifted": [v + c["shift"] for v in x], "cut": [v + c["shift"] for v in x][c["start"]:], "restored": x}
+        for k in ("ctor", "orig", "shifted", "cut", "restored"):
+            got = o[k]
+            if any(b <= a for a, b in zip(got[:-1], got[1:])):
+                fail("sorted", "abscissae not strictly increasing after %s: %s" % (k, got))
+            elif [Fraction(v) for v in got] != [Fraction(v) for v in exp[k]]:
+                fail("original-changed" if k in ("orig", "restored") else "abscissae-changed", "after %s the abscissae are %s, expected %s" % (k, got, exp[k]))
+        if o.get("caller_changed"):
+            fail("caller-mutated", "the caller's array was modified")
+        return F
+
+    def label(self, c, o):
+        return "bigint:%d" % len(c["x"])
